@@ -94,7 +94,9 @@ func runC08(c *Ctx) {
 			if !calleeIs(staticCalleeObj(call.Call), "private/bufpkg/bufcas", "ManifestToDigest") {
 				continue
 			}
-			ok := dependsOnCall(call.Call.Args[0], func(cc *ssa.CallCommon) bool { return calleeIs(staticCalleeObj(cc), "private/bufpkg/bufcas", "NewManifest") })
+			ok := dependsOnCall(call.Call.Args[0], func(cc *ssa.CallCommon) bool {
+				return calleeIs(staticCalleeObj(cc), "private/bufpkg/bufcas", "NewManifest")
+			})
 			c.Ob("ORDER-INDEPENDENT", fr.ID()+"/manifest-sorted", call.Pos(), ok, true, "the hashed manifest is built by bufcas.NewManifest (which sorts the nodes by path): %v", ok)
 		}
 	}
